@@ -134,6 +134,9 @@ def confirm_finding(run, f):
         return False, "no witness"
     impl, model = _run_pair(run, [w])
     op = w.split(" ", 1)[0]
+    pred = FINDING_PREDICATES.get(f.get("identify", {}).get("class"))
+    if pred and pred(f, w, impl[0], model[0]):
+        return True, impl[0]
     if fails(op, impl[0], model[0]):
         return True, impl[0]
     return False, f"witness passes now: impl={impl[0][:200]} model={model[0][:200]}"
